@@ -72,6 +72,14 @@ CHECKS = {
   "held on the injected faults: for generated accepted documents, every fault kind of the statement at the positions it applies to (chosen by index), written directly and carried by PASTE and INCLUDE, is rejected; for direct faults the diagnostic lies inside a directive that takes part in the fault",
   "trusts the renderer's span map for the participants of a fault",
   "runtime monitoring with fault injection: one injected fault per execution, oracle = rejection + location inside the participants' spans"),
+ "C12": ("exploration",
+  "held on the generated inheritance graphs in several declaration orders: the children of every object with an allOf rule, in user types, bodies, headers, query and JSON-RPC schemas, equal the reference list (bases in order, each key once, marked with the directly named base, own properties last); overrides, non-object and undefined bases are rejected",
+  "trusts the model projector's 12-line flattening written from the statement; graphs the schema dependency rejects (a key arriving through two routes) are counted, not judged",
+  "runtime monitoring: execution vs executable reference model over the serialised catalog, fault injection for the rejected variants"),
+ "C13": ("exploration",
+  "held on the generated path trees: pathVariables of every HTTP interaction equal the reference (declared per prefix, in path order, with the declared schema) and every faulty variant of each document is rejected",
+  "trusts the model projector's prefix rule (15 lines from the statement)",
+  "runtime monitoring: execution vs executable reference model, fault injection for the rejected variants"),
 }
 
 def main():
